@@ -523,6 +523,36 @@ def norm_scale(repo, tier="quick"):
             elif ast.unparse(r) == tsrc:
                 scale = (n, st.targets[0].value.id, fl.canon(l, n.id), st.targets[0])
     if scale is None:
+        # a whole-array rescaling `A *= F`: it reaches the returned dict only through rows that were handed out as views
+        # (`pos[node] = A[idx]`) after the last binding of A, on every path
+        rets = [n for n in cfg.nodes if n.kind == "stmt" and isinstance(n.ast, ast.Return) and isinstance(n.ast.value, ast.Name)]
+        for n in cfg.nodes:
+            st = n.ast
+            if n.kind == "stmt" and isinstance(st, ast.AugAssign) and isinstance(st.op, ast.Mult) and isinstance(st.target, ast.Name) and rets:
+                A = st.target.id
+                D = rets[0].ast.value.id
+                if not _positional_array(fl.canon(ast.Name(id=A, ctx=ast.Load(), lineno=st.lineno, col_offset=0), n.id), fl=fl):
+                    continue
+                views = set()
+                for v in cfg.nodes:
+                    if v.kind == "stmt" and isinstance(v.ast, ast.Assign) and isinstance(v.ast.targets[0], ast.Subscript) and \
+                            isinstance(v.ast.targets[0].value, ast.Name) and v.ast.targets[0].value.id == D and \
+                            isinstance(v.ast.value, ast.Subscript) and isinstance(v.ast.value.value, ast.Name) and v.ast.value.value.id == A:
+                        lps = enclosing_loops(fi, v.id)
+                        if lps:
+                            views.add(lps[0].id)
+                leaks = []
+                for d in fl.reaching(A, n.id):
+                    if d.kind not in ("assign", "aug"):
+                        continue
+                    reach = cfg.reachable_from(d.node, avoid=views, edge_filter=lambda a_, b_, l: l != "exc")
+                    if n.id in reach:
+                        leaks.append(d)
+                if leaks:
+                    return [ob_fail(oid, fi, st, construct="%s *= factor, but %s (line %d) is a fresh array whose rows are not the values of %s on every path"
+                                    % (A, A, cfg.nodes[leaks[0].node].lineno, D), instance="all-nodes",
+                                    reason="the rescaling is applied to a copy of the positions: on a path where the rows were not handed back to the dict the "
+                                           "returned positions keep the raw layout scale")]
         raise AnalysisError("vespr_layout: no `pos[node] *= factor` rescaling found (a vectorised rewrite is outside this rule)", fi.where())
     sn, posname, F, tgt = scale
     loops = enclosing_loops(fi, sn.id)
@@ -687,6 +717,8 @@ def _positional_array(t, depth=0, fl=None):
     """numpy.array(list(D.values())) and what the rotation helper / arithmetic make of it: rows in enumeration order"""
     if depth > 8 or not isinstance(t, tuple) or not t:
         return False
+    if t[0] == "sub" and t[2][0] not in ("const",) and False:
+        pass
     if t[0] == "var" and fl is not None and t[2]:
         # several reaching definitions: positional when every one of them is
         vals = []
@@ -705,6 +737,15 @@ def _positional_array(t, depth=0, fl=None):
         return _positional_array(inner, depth + 1, fl)
     if t[0] == "call" and t[2][0] == "fn" and t[2][1].endswith(":rotate_to_axis") and t[3]:
         return _positional_array(t[3][0], depth + 1, fl)
+    # matrices networkx builds from a graph have one row / column per node in iteration order
+    if t[0] == "call" and t[2][0] == "ext" and t[2][1] in ("networkx.floyd_warshall_numpy", "networkx.to_numpy_array", "networkx.adjacency_matrix",
+                                                         "networkx.to_numpy_matrix", "networkx.laplacian_matrix"):
+        return True
+    cw = is_call(t, "numpy.where", "numpy.sqrt", "numpy.abs", "numpy.square", "numpy.asarray", "numpy.triu", "numpy.tril")
+    if cw and cw[0]:
+        return any(_positional_array(x, depth + 1, fl) for x in cw[0])
+    if t[0] == "cmp":
+        return any(_positional_array(x, depth + 1, fl) for x in t[2])
     if t[0] == "binop":
         return any(_positional_array(x, depth + 1, fl) for x in t[2:4])
     return False
@@ -726,8 +767,27 @@ def key_layout(repo, tier="quick"):
         nid = fi.cfg.owner[id(sub)]
         base = fl.canon(sub.value, nid)
         k = fl.canon(sub.slice, nid)
+        def comp_space(x):
+            """space of a name bound by an enclosing comprehension: that of the elements it ranges over"""
+            if x[0] != "unresolved":
+                return _layout_space(x, graph)
+            for comp in ast.walk(fi.node):
+                if isinstance(comp, (ast.ListComp, ast.SetComp, ast.DictComp, ast.GeneratorExp)) and any(y is sub for y in ast.walk(comp)):
+                    for g in comp.generators:
+                        if isinstance(g.target, ast.Name) and g.target.id == x[1]:
+                            try:
+                                it = fl.canon(g.iter, nid)
+                            except Exception:
+                                return None
+                            if is_call(it, "enumerate"):
+                                return None
+                            return _layout_space(("iter", None, it), graph)
+            return None
         if _positional_array(base, fl=fl):
-            sp = _layout_space(k, graph)
+            sp = _layout_space(k, graph) if k[0] != "unresolved" else comp_space(k)
+            if sp is None and k[0] == "tuple":
+                comps = [comp_space(x) for x in k[1]]
+                sp = "node" if "node" in comps else ("index" if comps and all(c == "index" for c in comps) else None)
             if sp == "node":
                 obs.append(ob_fail(oid, fi, sub, construct="%s  (rows in enumeration order, subscript made of node keys)" % ast.unparse(sub), instance="array-by-node-key",
                                    reason="a position array is indexed with node keys of the graph; node keys are arbitrary labels, not row numbers: "
